@@ -1269,6 +1269,9 @@ class ktensor:
         else:
             R = U[0].shape[1]
 
+        if not all(U[i].shape[1] == R for i in range(self.ndims) if i != n):
+            assert False, "All factor matrices must have the same number of columns"
+
         # Compute matrix of weights
         W = np.tile(self.weights[:, None], (1, R))
         for i in range(self.ndims):
